@@ -45,7 +45,7 @@ def gen_session(rnd, root, tier, allow_threads=True):
         o["UCI_AnalyseMode"] = "true"
     if rnd.random() < 0.2:
         o["Contempt"] = rnd.choice([-2000, -200, -50, 50, 200, 2000])
-    kinds = ["depth"] * 5 + ["nodes"] * 2 + ["movetime", "clock", "mate", "infinite"]
+    kinds = ["depth"] * 5 + ["nodes"] * 2 + ["movetime", "clock", "mate", "infinite", "ponder"]
     kind = rnd.choice(kinds)
     maxd = 7 if tier == "quick" else 12
     if kind == "depth":
@@ -61,9 +61,13 @@ def gen_session(rnd, root, tier, allow_threads=True):
             go += f" movestogo {rnd.choice([1, 2, 10, 40])}"
     elif kind == "mate":
         go = f"mate {rnd.randint(1, 3)}"
+    elif kind == "ponder":
+        go = f"ponder depth {rnd.randint(1, 5)}"
     else:
         go = "infinite"
     return {"options": o, "go": go, "kind": kind, "use_hist": rnd.random() < 0.5,
+            # an earlier search in the same process that was restricted to one root move of ANOTHER position: nothing of it may leak
+            "prior_searchmoves": rnd.random() < 0.25, "ponder_end": rnd.choice(["stop", "ponderhit"]),
             "net": rnd.choice(NETS), "searchmoves": rnd.random() < (0.8 if root.get("cat") == "promo" else 0.25), "stop_after": rnd.choice([0.0, 0.01, 0.05, 0.15])}
 
 
@@ -83,6 +87,10 @@ def run_session(bdir, root, s, rnd_seed, timeout=90, extra_env=None):
             start, hist = root["start"], root["hist"]
         else:
             start, hist = root["fen"], []
+        if s.get("prior_searchmoves"):
+            eng.send("position startpos")
+            eng.send("go depth 1 searchmoves e2e4")
+            eng.read_until(lambda l: l.startswith("bestmove"), 180)
         pos_cmd = f"position fen {start}" + (" moves " + " ".join(hist) if hist else "")
         sf = uci.fen_to_fields(start)
         wtm_root = sf["wtm"] if len(hist) % 2 == 0 else not sf["wtm"]
@@ -116,6 +124,9 @@ def run_session(bdir, root, s, rnd_seed, timeout=90, extra_env=None):
         if s["kind"] == "infinite":
             time.sleep(s["stop_after"])
             eng.send("stop")
+        elif s["kind"] == "ponder":
+            time.sleep(s["stop_after"])
+            eng.send(s.get("ponder_end", "stop"))
         # Searches throttled by strength options (MaxNPS 2000, UCI_Elo -625, ...) or slowed down by a loaded machine may need minutes for a
         # depth limit: after a grace period the driver sends 'stop' (as a GUI user would) - the answer must be well-formed all the same.
         lines, ok = eng.read_until(lambda l: l.startswith("bestmove"), 12)
